@@ -199,7 +199,7 @@ def apply_edits(item, edits, twin_false=False):
         elif k == "desugar-iter-chain":
             item.desugar_iter_chain(at["source"], int(at.get("nth", "1")), at["elem"], at.get("out", "__out"), at.get("call"))
         elif k == "enum-eq":
-            item.enum_eq(at["prefix"], int(at.get("count", "1")), at.get("why", ""), at.get("call"))
+            item.enum_eq(at.get("prefix") or at["rhs"], -1 if at.get("count", "any") == "any" else int(at["count"]), at.get("why", ""), at.get("call"), exact_rhs=("rhs" in at))
         elif k == "drop-attrs":
             item.drop_attrs(at.get("why", ""))
         elif k == "closure-annotate":
@@ -257,7 +257,7 @@ def _with_false(text):
     return t + "\n ensures false,"
 
 
-def generate(u, repo, specs_dir, twin_of=None):
+def generate(u, repo, specs_dir, twin_of=None, extra=""):
     """Returns (text, meta).  meta: items with generated line ranges, edit logs, functions under
     contract.  twin_of = index of the item whose contract gets `ensures false` (vacuity twin)."""
     out = []
@@ -274,6 +274,10 @@ def generate(u, repo, specs_dir, twin_of=None):
     out.append("// ---- prelude (type stubs, external contracts, spec functions)\n")
     out.append(u["prelude"])
     out.append("\n")
+    if extra:
+        out.append("// ---- constants of /repo referenced by the extracted text (copied verbatim on demand)\n")
+        out.append(extra)
+        out.append("\n")
     meta = {"items": []}
     # `expect:` lines: token sequences of /repo that the prelude mirrors by hand (constants); if one is
     # no longer present exactly once the unit is undecided (lost anchor), never silently stale
